@@ -79,11 +79,21 @@ func (m FileMatcher) Match(file *ast.File, d data.Data) (data.Data, bool) {
 		return d, false
 	}
 
-	d, ok := m.Imports.Match(file, d)
-	if !ok {
-		return d, ok
+	// A path that the file imports under several names gives an import
+	// named by a metavariable several names to stand for. Which of them
+	// the code of the patch means shows when the code is matched: take
+	// the first with which it matches anything.
+	for _, withImports := range m.Imports.matchAll(file, d) {
+		if matched, ok := m.matchNodes(file, withImports); ok {
+			return matched, true
+		}
 	}
+	return d, false
+}
 
+// matchNodes matches the code of the patch against the file, given the data
+// of its imports.
+func (m FileMatcher) matchNodes(file *ast.File, d data.Data) (data.Data, bool) {
 	// To match the body, we use astutil.Apply which traverses the AST and
 	// provides a replaceable pointer to each node so that we can rewrite
 	// the AST in-place.
